@@ -5,6 +5,7 @@ import (
 	"go/token"
 	"go/types"
 	"math"
+	"regexp"
 	"strings"
 
 	"golang.org/x/tools/go/ssa"
@@ -163,6 +164,9 @@ func (ff *FuncFacts) linearize(v ssa.Value, depth int) lin {
 			}
 			return lin{ff.lenAtom(x.Call.Args[0]), 0, true}
 		}
+		if a, ok := ff.lenGetter(x); ok {
+			return lin{a, 0, true}
+		}
 	}
 	return lin{ff.Term(v), 0, true}
 }
@@ -178,6 +182,40 @@ var lenContracts = map[string]map[int]int{
 	"cipher/encoder.DeserializeRaw":    {0: 0},
 	"cipher/encoder.DeserializeUint32": {1: 0},
 	"copy":                             {0: 0}, // n <= len(dst)
+}
+
+// relContracts: ordering relations between results (r<k>) and arguments (a<k>) of a
+// callee on its success return.  Each entry is justified by obligations checked
+// elsewhere in the same run (named in the comment).
+type relContract struct{ lo, hi string } // lo <= hi
+
+var relContracts = map[string][]relContract{
+	// C29-R2 return shapes: end = min(start+size, n) and start = size*(page-1) < n
+	"visor.PageIndex.Cal": {{"r0", "r1"}, {"r1", "a1"}},
+}
+
+var lenGetterRe = regexp.MustCompile(`^(?:uint64|int|uint32)\(len\(\$(\d+)((?:\.[A-Za-z_][A-Za-z_0-9]*)+)\)\)$`)
+
+// lenGetter: callee whose single return is <conv>(len(<param>.<fields>)).
+func (ff *FuncFacts) lenGetter(c *ssa.Call) (string, bool) {
+	f := c.Call.StaticCallee()
+	if f == nil || f.Blocks == nil || len(f.Blocks) != 1 || !InModule(f) {
+		return "", false
+	}
+	ret, ok := f.Blocks[0].Instrs[len(f.Blocks[0].Instrs)-1].(*ssa.Return)
+	if !ok || len(ret.Results) != 1 {
+		return "", false
+	}
+	m := lenGetterRe.FindStringSubmatch(ff.P.Facts(f).Term(ret.Results[0]))
+	if m == nil {
+		return "", false
+	}
+	var k int
+	fmt.Sscanf(m[1], "%d", &k)
+	if k >= len(c.Call.Args) {
+		return "", false
+	}
+	return "len(" + ff.Term(c.Call.Args[k]) + m[2] + ")", true
 }
 
 // factsAt builds the DBM valid at block B.
@@ -245,6 +283,26 @@ func (ff *FuncFacts) factsAt(B *ssa.BasicBlock) *dbm {
 			// contracts
 			if ex, ok := v.(*ssa.Extract); ok {
 				if call, ok := ex.Tuple.(*ssa.Call); ok {
+					if rcs, ok := relContracts[calleeName(&call.Call)]; ok && ff.okCallAt(call, B) {
+						side := func(s string) (lin, bool) {
+							var k int
+							fmt.Sscanf(s[1:], "%d", &k)
+							if s[0] == 'a' {
+								if k >= len(call.Call.Args) {
+									return lin{}, false
+								}
+								return ff.linearize(call.Call.Args[k], 1), true
+							}
+							return lin{fmt.Sprintf("%s#%d", ff.Term(call), k), 0, true}, true
+						}
+						for _, rc := range rcs {
+							lo, ok1 := side(rc.lo)
+							hi, ok2 := side(rc.hi)
+							if ok1 && ok2 && lo.ok && hi.ok {
+								m.add(lo.atom, hi.atom, hi.c-lo.c)
+							}
+						}
+					}
 					if ct, ok := lenContracts[calleeName(&call.Call)]; ok {
 						if k, ok := ct[ex.Index]; ok && k < len(call.Call.Args) {
 							ff.addLenBound(m, v, call.Call.Args[k])
@@ -469,4 +527,19 @@ func boundObligations(r *Run, rule string, fnRefs ...string) {
 			r.Check(rule, ref+": "+trunc(s.Expr, 110), r.P.Pos(s.In.Pos()), s.OK, s.Why)
 		}
 	}
+}
+
+// okCallAt: the call's error result is known nil at block B (or the callee returns no error).
+func (ff *FuncFacts) okCallAt(call *ssa.Call, B *ssa.BasicBlock) bool {
+	res := call.Call.Signature().Results()
+	if res.Len() == 0 || !isErrorType(res.At(res.Len()-1).Type()) {
+		return true
+	}
+	want := "ok(" + ff.Term(call) + ")"
+	for _, a := range ff.Must(B) {
+		if a.S == want {
+			return true
+		}
+	}
+	return false
 }
